@@ -404,6 +404,34 @@ abbrev Query := Nat × Ident × Switch
 def deriveSeq {K : Type} (kd : KeyDeriv K) (qs : List Query) : List (Res Nat) :=
   qs.map fun q => deriveKey kd q.1 q.2.1 q.2.2
 
+/-! ### seeds
+
+`ExtKeychain::from_seed(seed, is_test)` → `ExtendedPrivKey::new_master`: HMAC-SHA512 keyed with
+`"IamVoldemort"` over the **whole** seed, whatever its length (the seed is the HMAC *message*, so
+there is no block-size truncation or padding of it); the first 32 bytes are the master secret key,
+the rest the chain code. `masterOf` is that function, opaque; everything below the master is the
+`KeyDeriv` of section 4. The rewind nonce of `ProofBuilder` / `LegacyProofBuilder` / `ViewKey` is a
+hash of key material of the keychain (`rewind_hash = blake2b(public_root_key)`, legacy: the root
+key) and the commitment: `nonceOf (master secret) commitment`, opaque as well. -/
+
+/-- the seed → master-key map together with the derivation below it -/
+structure SeedDeriv (K : Type) where
+  /-- `new_master(seed)` (fails with negligible probability: not modelled) -/
+  masterOf : Bytes → K
+  ckd : K → ChildNumber → Option K
+  secret : K → Nat
+  blindSwitch : Nat → Nat → Nat
+  /-- `rewind_nonce`: hash of the keychain's root key material and the commitment -/
+  nonceOf : Nat → Opening → Nat
+
+/-- the keychain `ExtKeychain::from_seed(seed)` -/
+def SeedDeriv.kd {K : Type} (sd : SeedDeriv K) (seed : Bytes) : KeyDeriv K :=
+  ⟨sd.masterOf seed, sd.ckd, sd.secret, sd.blindSwitch⟩
+
+/-- the rewind nonce function of the builders made from the keychain of `seed` -/
+def SeedDeriv.rn {K : Type} (sd : SeedDeriv K) (seed : Bytes) : Opening → Nat :=
+  sd.nonceOf (sd.secret (sd.masterOf seed))
+
 /-! ### the free key derivation
 
 `derive_key` reads only `depth` and the first `depth` components, so two identifiers that agree on
